@@ -31,6 +31,7 @@ Seeds == {0, 1, 2}                           \* 2 stands for PYTHONHASHSEED=rand
 Cfgs == { [id |-> "full",   overlap |-> TRUE,  resv |-> {}],
           [id |-> "resvA",  overlap |-> FALSE, resv |-> {"a"}],
           [id |-> "other",  overlap |-> TRUE,  resv |-> {"b"}],
+          [id |-> "netsX",  overlap |-> FALSE, resv |-> {}],      \* preserved networks, default prefixes
           [id |-> "nosalt", overlap |-> FALSE, resv |-> {}] }
 \* inputs: which reserved-word candidates occur in it, whether it has a $6$ secret
 Inputs == { [id |-> "mixed", mentions |-> {"a", "b"}, sha |-> TRUE],
